@@ -126,86 +126,146 @@ structure RcptOptions where
   notify : List Bytes := []
   orcptType : Bytes := []
   orcpt : Bytes := []
-  rrvs : Option Bytes := none     -- already formatted RFC 3339 text (time formatting is the caller's)
+  rrvs : Option (Int × Int) := none     -- (unix seconds, zone offset in seconds east of UTC) of the `time.Time`
 deriving DecidableEq, Repr, Inhabited
 
+/-- civil date from days since 1970-01-01 (proleptic Gregorian) -/
+def civilFromDays (z0 : Int) : Int × Int × Int :=
+  let z := z0 + 719468
+  let era := (if z ≥ 0 then z else z - 146096) / 146097
+  let doe := z - era * 146097
+  let yoe := (doe - doe / 1460 + doe / 36524 - doe / 146096) / 365
+  let y := yoe + era * 400
+  let doy := doe - (365 * yoe + yoe / 4 - yoe / 100)
+  let mp := (5 * doy + 2) / 153
+  let d := doy - (153 * mp + 2) / 5 + 1
+  let m := if mp < 10 then mp + 3 else mp - 9
+  (if m ≤ 2 then y + 1 else y, m, d)
+
+/-- decimal, left-padded with zeros to `w` digits -/
+def padDec (n : Int) (w : Nat) : Bytes :=
+  let d := natToDec n.toNat
+  List.replicate (w - d.length) 48 ++ d
+
+/-- the zone suffix: `Z` for UTC, else `+hh:mm` / `-hh:mm` -/
+def zoneText (off : Int) : Bytes :=
+  if off == 0 then [90]
+  else (if off < 0 then [45] else [43]) ++ padDec ((off.natAbs : Int) / 3600) 2 ++ [58] ++ padDec (((off.natAbs : Int) % 3600) / 60) 2
+
+/-- `t.Format(time.RFC3339)` for years 0..9999 and whole-minute zone offsets -/
+def formatRFC3339 (unix : Int) (off : Int := 0) : Bytes :=
+  let loc := unix + off
+  let days := loc.fdiv 86400
+  let secs := loc - days * 86400
+  let c := civilFromDays days
+  padDec c.1 4 ++ [45] ++ padDec c.2.1 2 ++ [45] ++ padDec c.2.2 2 ++ [84] ++ padDec (secs / 3600) 2 ++ [58] ++
+    padDec ((secs % 3600) / 60) 2 ++ [58] ++ padDec (secs % 60) 2 ++ zoneText off
+
 def hasExt (ext : List (Bytes × Bytes)) (k : String) : Bool := ext.any (·.1 == k.b)
+
+/-! Each parameter is rendered by its own small function: `some piece` (possibly empty) or `none` for a local
+error.  All local errors look the same from outside (an error, nothing written), so the order in which Go
+checks them does not matter here. -/
+
+/-- `BODY=`: the value given (default 8BITMIME); 7BIT/8BITMIME need 8BITMIME offered (else dropped), BINARYMIME needs
+    BINARYMIME offered (else an error); anything else is an error -/
+def bodyParam (ext : List (Bytes × Bytes)) (o : Option MailOptions) : Option Bytes :=
+  let body : Bytes := match o with | some o => if o.body.isEmpty then "8BITMIME".b else o.body | none => "8BITMIME".b
+  if body == "7BIT".b then some (if hasExt ext "8BITMIME" then " BODY=7BIT".b else [])
+  else if body == "8BITMIME".b then some (if hasExt ext "8BITMIME" then " BODY=8BITMIME".b else [])
+  else if body == "BINARYMIME".b then (if hasExt ext "BINARYMIME" then some " BODY=BINARYMIME".b else none)
+  else none
+
+def sizeParam (ext : List (Bytes × Bytes)) (o : MailOptions) : Bytes :=
+  if hasExt ext "SIZE" && o.size != 0 then " SIZE=".b ++ intToDec o.size else []
+
+def requireTLSParam (ext : List (Bytes × Bytes)) (o : MailOptions) : Option Bytes :=
+  if o.requireTLS then (if hasExt ext "REQUIRETLS" then some " REQUIRETLS".b else none) else some []
+
+def utf8Param (ext : List (Bytes × Bytes)) (o : MailOptions) : Option Bytes :=
+  if o.utf8 then (if hasExt ext "SMTPUTF8" then some " SMTPUTF8".b else none) else some []
+
+def retParam (o : MailOptions) : Option Bytes :=
+  if o.ret.isEmpty then some []
+  else if o.ret == "FULL".b then some " RET=FULL".b
+  else if o.ret == "HDRS".b then some " RET=HDRS".b
+  else none
+
+def envidParam (o : MailOptions) : Option Bytes :=
+  if o.envid.isEmpty then some []
+  else if !isPrintableASCII o.envid then none
+  else some (" ENVID=".b ++ encodeXtext o.envid)
+
+def dsnMailParams (ext : List (Bytes × Bytes)) (o : MailOptions) : Option Bytes :=
+  if hasExt ext "DSN" then
+    match retParam o, envidParam o with
+    | some r, some e => some (r ++ e)
+    | _, _ => none
+  else some []
+
+def authParam (ext : List (Bytes × Bytes)) (o : MailOptions) : Bytes :=
+  match o.auth with
+  | some a => if hasExt ext "AUTH" then (if a.isEmpty then " AUTH=<>".b else " AUTH=".b ++ encodeXtext a) else []
+  | none => []
+
+/-- all parameters of the MAIL line, in the order they are written -/
+def mailParams (ext : List (Bytes × Bytes)) (o : Option MailOptions) : Option Bytes :=
+  match bodyParam ext o with
+  | none => none
+  | some b =>
+    match o with
+    | none => some b
+    | some o =>
+      match requireTLSParam ext o, utf8Param ext o, dsnMailParams ext o with
+      | some t, some u, some d => some (b ++ sizeParam ext o ++ t ++ u ++ d ++ authParam ext o)
+      | _, _, _ => none
 
 /-- the MAIL command line (without CRLF), or `none` for a local error with nothing written -/
 def mailLine (ext : List (Bytes × Bytes)) (frm : Bytes) (o : Option MailOptions) : Option Bytes :=
   if !validLine frm then none else
-  let l0 := "MAIL FROM:<".b ++ frm ++ ">".b
-  let body : Bytes := match o with | some o => if o.body.isEmpty then "8BITMIME".b else o.body | none => "8BITMIME".b
-  let l1? : Option Bytes :=
-    if body == "7BIT".b || body == "8BITMIME".b then
-      some (if hasExt ext "8BITMIME" then l0 ++ " BODY=".b ++ body else l0)
-    else if body == "BINARYMIME".b then
-      (if hasExt ext "BINARYMIME" then some (l0 ++ " BODY=BINARYMIME".b) else none)
-    else none
-  match l1? with
+  match mailParams ext o with
   | none => none
-  | some l1 =>
-  match o with
-  | none => some l1
-  | some o =>
-    let l2 := if hasExt ext "SIZE" && o.size != 0 then l1 ++ " SIZE=".b ++ intToDec o.size else l1
-    if o.requireTLS && !hasExt ext "REQUIRETLS" then none else
-    let l3 := if o.requireTLS then l2 ++ " REQUIRETLS".b else l2
-    if o.utf8 && !hasExt ext "SMTPUTF8" then none else
-    let l4 := if o.utf8 then l3 ++ " SMTPUTF8".b else l3
-    let dsn? : Option Bytes :=
-      if hasExt ext "DSN" then
-        if !(o.ret == "FULL".b || o.ret == "HDRS".b || o.ret.isEmpty) then none
-        else
-          let l5 := if o.ret.isEmpty then l4 else l4 ++ " RET=".b ++ o.ret
-          if o.envid.isEmpty then some l5
-          else if !isPrintableASCII o.envid then none
-          else some (l5 ++ " ENVID=".b ++ encodeXtext o.envid)
-      else some l4
-    match dsn? with
-    | none => none
-    | some l6 =>
-      match o.auth with
-      | some a =>
-        if hasExt ext "AUTH" then
-          some (l6 ++ (if a.isEmpty then " AUTH=<>".b else " AUTH=".b ++ encodeXtext a))
-        else some l6
-      | none => some l6
+  | some ps => some ("MAIL FROM:<".b ++ frm ++ ">".b ++ ps)
 
 def notifyOk (vals : List Bytes) : Bool :=
   let known := vals.all (fun v => v == "NEVER".b || v == "DELAY".b || v == "FAILURE".b || v == "SUCCESS".b)
   !vals.isEmpty && known && vals.eraseDups.length == vals.length && (!(vals.contains "NEVER".b) || vals.length == 1)
 
+def notifyParam (o : RcptOptions) : Option Bytes :=
+  if o.notify.isEmpty then some []
+  else if !notifyOk o.notify then none
+  else some (" NOTIFY=".b ++ List.intercalate [44] o.notify)
+
+def orcptParam (ext : List (Bytes × Bytes)) (o : RcptOptions) : Option Bytes :=
+  if o.orcpt.isEmpty then some []
+  else if o.orcptType == "RFC822".b then
+    (if !isPrintableASCII o.orcpt then none else some (" ORCPT=RFC822;".b ++ encodeXtext o.orcpt))
+  else if o.orcptType == "UTF-8".b then
+    some (" ORCPT=UTF-8;".b ++
+      (if hasExt ext "SMTPUTF8" then encodeUTF8AddrUnitext o.orcpt else encodeUTF8AddrXtext o.orcpt))
+  else none
+
+def rrvsParam (ext : List (Bytes × Bytes)) (o : RcptOptions) : Bytes :=
+  match o.rrvs with
+  | some t => if hasExt ext "RRVS" then " RRVS=".b ++ formatRFC3339 t.1 t.2 else []
+  | none => []
+
+def rcptParams (ext : List (Bytes × Bytes)) (o : RcptOptions) : Option Bytes :=
+  if hasExt ext "DSN" then
+    match notifyParam o, orcptParam ext o with
+    | some n, some oc => some (n ++ oc ++ rrvsParam ext o)
+    | _, _ => none
+  else some (rrvsParam ext o)
+
 /-- the RCPT command line, or `none` for a local error -/
 def rcptLine (ext : List (Bytes × Bytes)) (to : Bytes) (o : Option RcptOptions) : Option Bytes :=
   if !validLine to then none else
-  let l0 := "RCPT TO:<".b ++ to ++ ">".b
   match o with
-  | none => some l0
+  | none => some ("RCPT TO:<".b ++ to ++ ">".b)
   | some o =>
-    let dsn? : Option Bytes :=
-      if hasExt ext "DSN" then
-        let l1? : Option Bytes :=
-          if o.notify.isEmpty then some l0
-          else if !notifyOk o.notify then none
-          else some (l0 ++ " NOTIFY=".b ++ List.intercalate [44] o.notify)
-        match l1? with
-        | none => none
-        | some l1 =>
-          if o.orcpt.isEmpty then some l1
-          else if o.orcptType == "RFC822".b then
-            if !isPrintableASCII o.orcpt then none else some (l1 ++ " ORCPT=RFC822;".b ++ encodeXtext o.orcpt)
-          else if o.orcptType == "UTF-8".b then
-            some (l1 ++ " ORCPT=UTF-8;".b ++
-              (if hasExt ext "SMTPUTF8" then encodeUTF8AddrUnitext o.orcpt else encodeUTF8AddrXtext o.orcpt))
-          else none
-      else some l0
-    match dsn? with
+    match rcptParams ext o with
     | none => none
-    | some l2 =>
-      match o.rrvs with
-      | some t => if hasExt ext "RRVS" then some (l2 ++ " RRVS=".b ++ t) else some l2
-      | none => some l2
+    | some ps => some ("RCPT TO:<".b ++ to ++ ">".b ++ ps)
 
 /-- the extension map an EHLO reply message produces (`ehlo`): lines after the first, split at the first SP -/
 def parseExt (msg : Bytes) : List (Bytes × Bytes) :=
